@@ -14,7 +14,7 @@ PRED = [("is_equal", "v_eq"), ("is_greater", "v_ugt"), ("is_greater_or_equal", "
         ("is_greater_or_equal_signed", "v_sge")]
 
 
-def gen(widths, cheap_widths=(), max_total=128, usage=None):
+def gen(widths, cheap_widths=(), max_total=128, usage=None, only_names=None):
     """widths: every harness; cheap_widths: only the operations that stay cheap on multi-word values;
     usage: {op: (closure params, closure body)} — where an evaluator arm of patronus does MORE than the plain baa call (a work-around
     around a dependency defect), the kernel checks the arm's closure body, cut from eval.rs, instead of the bare operation"""
@@ -31,10 +31,11 @@ def gen(widths, cheap_widths=(), max_total=128, usage=None):
         return f"x.{op}()"
     out = ["""#![allow(unused, non_snake_case)]
 pub mod reference;
-#[cfg(kani)]
+#[cfg(any(kani, verif_replay))]
 mod harness {
     use baa::*;
     use crate::reference::*;
+    //@@SHIM@@
 
     fn val(x: &BitVecValue) -> u128 {
         let w = x.words();
@@ -56,8 +57,10 @@ mod harness {
 """]
     names = []
     def h(name, body):
+        if only_names is not None and name not in only_names:
+            return
         names.append(name)
-        out.append(f"    #[kani::proof]\n    #[kani::unwind(4)]\n    fn {name}() {{\n{body}    }}\n")
+        out.append(f"    #[cfg_attr(kani, kani::proof)]\n    #[cfg_attr(kani, kani::unwind(4))]\n    fn {name}() {{\n{body}    }}\n")
     for w in list(widths) + [x for x in cheap_widths if x not in widths]:
         cheap_only = w not in widths
         for op in BIN:
@@ -72,6 +75,10 @@ mod harness {
             h(f"k_{op}_w{w}", f"        let (a, x) = any_bv({w}); let (b, y) = any_bv({w});\n        kani::cover!(a != b);\n        check(&{call2(op)}, {w}, v_{op}({w}, a, b));\n")
         for op, ref in SHIFT:
             if cheap_only:
+                continue
+            if w > 64 and op in ("shift_left", "arithmetic_shift_right"):
+                # measured infeasible in this sandbox (the SAT back end exhausts 60 GB even for ONE constant amount once the arm
+                # re-normalises the result with a slice): not run above 64 bits; shift_right is
                 continue
             h(f"k_{op}_w{w}", f"        let (a, x) = any_bv({w}); let (b, y) = any_bv({w});\n        kani::cover!(b >= {w});\n        check(&{call2(op)}, {w}, {ref}({w}, a, b));\n")
         for op, ref in UN:
@@ -90,12 +97,15 @@ mod harness {
         if cheap_only:
             continue
         # extension / slice / concat: second width chosen around the word boundaries
-        for by in sorted({1, 64 - (w % 64) if w % 64 else 64, max_total - w}):
+        far = {max_total - w} if w in (1, 63, 64, 65) else set()   # extension / concat up to the maximal total width only from these widths
+        for by in sorted({1, 64 - (w % 64) if w % 64 else 64} | far):
             if by <= 0 or w + by > max_total:
                 continue
             h(f"k_zero_extend_w{w}_by{by}", f"        let (a, x) = any_bv({w});\n        kani::cover!(sign({w}, a));\n        check(&x.zero_extend({by}), {w + by}, v_zext({w}, a, {by}));\n")
+            if w > 64:
+                continue   # sign extension of a multi-word value: not feasible for the SAT back end here (zero extension is)
             h(f"k_sign_extend_w{w}_by{by}", f"        let (a, x) = any_bv({w});\n        kani::cover!(sign({w}, a));\n        check(&x.sign_extend({by}), {w + by}, v_sext({w}, a, {by}));\n")
-        for wb in sorted({1, 64 - (w % 64) if w % 64 else 64, max_total - w}):
+        for wb in sorted({1, 64 - (w % 64) if w % 64 else 64} | (far if w in (64, 65) else set())):
             if wb <= 0 or w + wb > max_total:
                 continue
             h(f"k_concat_w{w}_w{wb}", f"        let (a, x) = any_bv({w}); let (b, y) = any_bv({wb});\n        kani::cover!(a != 0 && b != 0);\n        check(&x.concat(&y), {w + wb}, v_concat({w}, a, {wb}, b));\n")
@@ -103,8 +113,11 @@ mod harness {
         for hi, lo in sorted({(w - 1, 0), (w - 1, w - 1), (0, 0), (w - 1, min(w - 1, 64)), (min(w - 1, 63), 0), (min(w - 1, 64), min(w - 1, 63)), (w - 1, 1), (max(w - 2, 0), 0)}):
             if lo <= hi < w:
                 h(f"k_slice_w{w}_{hi}_{lo}", f"        let (a, x) = any_bv({w});\n        kani::cover!(a != 0);\n        check(&x.slice({hi}, {lo}), {hi - lo + 1}, v_slice({w}, a, {hi}, {lo}));\n")
+    out.append("    #[cfg(verif_replay)]\n    const HARNESSES: &[(&str, fn())] = &[" + ", ".join(f'("{n}", {n})' for n in names) + "];\n")
     out.append("}\n")
-    return "\n".join(out), names
+    import os
+    shim = open(os.path.join(os.path.dirname(os.path.abspath(__file__)), "inject", "shim.rs"), encoding="utf-8").read()
+    return "\n".join(out).replace("    //@@SHIM@@\n", shim), names
 
 
 if __name__ == "__main__":
